@@ -20,11 +20,22 @@ Definition seg_id_spec (props : node_props) (key : string) : Prop :=
 Definition axes_match_spec (axes : option (list axis)) (shape : list nat) : Prop :=
   exists l, axes = Some l /\ l <> [] /\ List.length l = List.length shape.
 
+(* --- the IEEE order --- *)
+(* a < b on extended numbers: nothing is below or above NaN, -inf is below everything else,
+   +inf above everything else, finite values compare as integers (same denominator) *)
+Inductive xlt : xnum -> xnum -> Prop :=
+| xlt_fin a b : a < b -> xlt (XFin a) (XFin b)
+| xlt_fin_pinf a : xlt (XFin a) XPInf
+| xlt_ninf_fin b : xlt XNInf (XFin b)
+| xlt_ninf_pinf : xlt XNInf XPInf.
+Definition is_fin (x : xnum) : Prop := exists z, x = XFin z.
+
 (* --- graph_is_in_seg_bounds --- *)
-(* the maximum exists and lies strictly below size * scale (all in units 1/U) *)
-Definition axis_inside (ax : axis) (n : nat) (s : Z) : Prop :=
-  exists m, ax_max ax = Some m /\ m < Z.of_nat n * s.
-Definition bounds_spec (axes : option (list axis)) (shape : list nat) (scale : option (list Z)) : Prop :=
+(* the maximum exists and lies strictly below size * scale (finite values in units 1/U) in the IEEE
+   sense: a NaN maximum, a NaN scale, or an extent 0 * inf = NaN is not inside *)
+Definition axis_inside (ax : axis) (n : nat) (s : xnum) : Prop :=
+  exists m, ax_max ax = Some m /\ xlt m (extent n s).
+Definition bounds_spec (axes : option (list axis)) (shape : list nat) (scale : option (list xnum)) : Prop :=
   let sc := scale_or_ones scale (List.length shape) in
   exists l, axes = Some l /\ l <> [] /\ List.length l = List.length shape /\
             List.length sc = List.length shape /\
@@ -49,19 +60,20 @@ Definition time_points_spec (v : vol) (k : nat) (tps ids : list Z) : Prop :=
   (forall t l, In (t, l) (combine tps ids) -> occurs v k t l).
 
 (* --- has_seg_ids_at_coords --- *)
-(* idx is the pixel holding coord scaled by sc: per axis, i = floor(c*s) (the product
-   c*s has denominator U*U) and 0 <= i < size; in particular one value per axis *)
-Inductive pixel_of : list nat -> list Z -> list Z -> list Z -> Prop :=
+(* idx is the pixel holding coord scaled by sc: per axis, coordinate and scale factor are finite,
+   i = floor(c*s) (the product c*s has denominator U*U) and 0 <= i < size; in particular one value
+   per axis, and a NaN / infinite coordinate or scale factor has no pixel *)
+Inductive pixel_of : list nat -> list xnum -> list xnum -> list Z -> Prop :=
 | pixel_nil : pixel_of [] [] [] []
 | pixel_cons n shape s sc c coord i idx :
     0 <= i < Z.of_nat n -> i * (U * U) <= c * s < (i + 1) * (U * U) ->
     pixel_of shape sc coord idx ->
-    pixel_of (n :: shape) (s :: sc) (c :: coord) (i :: idx).
-Definition coord_in_range (v : vol) (sc coord : list Z) : Prop :=
+    pixel_of (n :: shape) (XFin s :: sc) (XFin c :: coord) (i :: idx).
+Definition coord_in_range (v : vol) (sc coord : list xnum) : Prop :=
   exists idx, pixel_of (v_shape v) sc coord idx.
-Definition coord_ok (v : vol) (sc coord : list Z) (l : Z) : Prop :=
+Definition coord_ok (v : vol) (sc coord : list xnum) (l : Z) : Prop :=
   exists idx, pixel_of (v_shape v) sc coord idx /\ v_px v idx = l.
-Definition coords_spec (v : vol) (coords : list (list Z)) (ids : list Z) (scale : option (list Z)) : Prop :=
+Definition coords_spec (v : vol) (coords : list (list xnum)) (ids : list Z) (scale : option (list xnum)) : Prop :=
   let sc := scale_or_ones scale (rank v) in
   List.length coords = List.length ids /\ List.length sc = rank v /\
   forall coord l, In (coord, l) (combine coords ids) -> coord_ok v sc coord l.
@@ -105,6 +117,81 @@ Proof.
   - exists y0. left; reflexivity.
   - destruct (IH b) as [y Hy]; [lia|exact Hin|]. exists y. right. exact Hy.
 Qed.
+
+(* ================================================================== *)
+(* IEEE multiplication and order                                      *)
+(* ================================================================== *)
+Lemma xltb_iff a b : xltb a b = true <-> xlt a b.
+Proof.
+  destruct a, b; cbn; split; intro H; try discriminate; try (inversion H; fail); try constructor; try reflexivity.
+  - lia.
+  - inversion H; subst. lia.
+Qed.
+
+Lemma xltb_false_iff a b : xltb a b = false <-> ~ xlt a b.
+Proof.
+  rewrite <- xltb_iff. destruct (xltb a b); split; intro H; try reflexivity; try discriminate.
+  - exfalso. apply H. reflexivity.
+Qed.
+
+Lemma xlt_fin_iff a b : xlt (XFin a) (XFin b) <-> a < b.
+Proof. split; intro H; [inversion H; assumption|constructor; exact H]. Qed.
+
+(* 0 <= c in the IEEE sense, i.e. Python's `c >= 0` *)
+Lemma xleb0_true c : xleb (XFin 0) c = true <-> (exists p, c = XFin p /\ 0 <= p) \/ c = XPInf.
+Proof.
+  destruct c; cbn; split; intro H.
+  - left. exists z. split; [reflexivity|lia].
+  - destruct H as [[p [Hp H0]]|H]; [inversion Hp; subst; lia|discriminate].
+  - discriminate.
+  - destruct H as [[p [Hp _]]|H]; discriminate.
+  - right; reflexivity.
+  - reflexivity.
+  - discriminate.
+  - destruct H as [[p [Hp _]]|H]; discriminate.
+Qed.
+
+(* a product is finite exactly when both factors are *)
+Lemma xinf_not_fin b p : xinf b <> XFin p.
+Proof. destruct b; discriminate. Qed.
+Lemma xmul_inf_not_fin pos b p : xmul_inf pos b <> XFin p.
+Proof. destruct b; cbn; try discriminate; try apply xinf_not_fin. destruct (z =? 0); [discriminate|apply xinf_not_fin]. Qed.
+Lemma xmul_fin_inv a b p : xmul a b = XFin p -> exists x y, a = XFin x /\ b = XFin y /\ p = x * y.
+Proof.
+  destruct a as [x| | |].
+  - destruct b as [y| | |].
+    + cbn. intros H. inversion H; subst. exists x, y. repeat split.
+    + discriminate.
+    + intros H. exfalso. exact (xmul_inf_not_fin true (XFin x) p H).
+    + intros H. exfalso. exact (xmul_inf_not_fin false (XFin x) p H).
+  - discriminate.
+  - intros H. exfalso. exact (xmul_inf_not_fin true b p H).
+  - intros H. exfalso. exact (xmul_inf_not_fin false b p H).
+Qed.
+Lemma xmul_comm a b : xmul a b = xmul b a.
+Proof.
+  destruct a as [x| | |], b as [y| | |]; cbn; try reflexivity.
+  rewrite Z.mul_comm. reflexivity.
+Qed.
+Lemma xmul_nan_l b : xmul XNaN b = XNaN.
+Proof. reflexivity. Qed.
+Lemma xmul_nan_r a : xmul a XNaN = XNaN.
+Proof. destruct a; reflexivity. Qed.
+(* inf * 0 = NaN; inf * (non-zero finite or infinite) = the infinity with the product of the signs *)
+Lemma xmul_inf_zero : xmul XPInf (XFin 0) = XNaN /\ xmul XNInf (XFin 0) = XNaN.
+Proof. split; reflexivity. Qed.
+Lemma xmul_inf_fin y : y <> 0 ->
+  xmul XPInf (XFin y) = (if 0 <? y then XPInf else XNInf) /\ xmul XNInf (XFin y) = (if 0 <? y then XNInf else XPInf).
+Proof.
+  intros Hy. cbn. replace (y =? 0) with false by lia. destruct (0 <? y); split; reflexivity.
+Qed.
+Lemma xmul_inf_inf :
+  xmul XPInf XPInf = XPInf /\ xmul XNInf XNInf = XPInf /\ xmul XPInf XNInf = XNInf /\ xmul XNInf XPInf = XNInf.
+Proof. repeat split; reflexivity. Qed.
+
+(* nothing is below or above NaN; nothing is below -inf or above +inf *)
+Lemma xlt_no_nan x : ~ xlt XNaN x /\ ~ xlt x XNaN /\ ~ xlt x XNInf /\ ~ xlt XPInf x.
+Proof. repeat split; intro H; inversion H. Qed.
 
 (* ================================================================== *)
 (* has_valid_seg_id                                                   *)
@@ -193,18 +280,20 @@ Proof.
     destruct (nth_error_Some_ex shape i) as [n Hn]; [lia|].
     destruct (nth_error_Some_ex sc i) as [s Hsi]; [lia|].
     destruct (ax_max ax) as [m|] eqn:M.
-    + rewrite Hn, Hsi. destruct (Z.of_nat n * s <=? m) eqn:C.
-      * split; [right; exact I|]. cbn. split; [contradiction|]. intros H.
-        destruct (H 0%nat ax n s) as [m' [Hm' Hlt]]; [reflexivity|rewrite Nat.add_0_r; exact Hn|rewrite Nat.add_0_r; exact Hsi|].
-        rewrite M in Hm'. inversion Hm'; subst. lia.
-      * destruct (IH shape sc (S i)) as [IHt IHa]; [lia|lia|]. split; [exact IHt|]. rewrite IHa. split.
+    + rewrite Hn, Hsi. destruct (xltb m (extent n s)) eqn:C; cbn [negb].
+      * apply xltb_iff in C.
+        destruct (IH shape sc (S i)) as [IHt IHa]; [lia|lia|]. split; [exact IHt|]. rewrite IHa. split.
         -- intros H j ax' n' s' Hj Hn' Hs'. destruct j as [|j].
            ++ cbn in Hj. inversion Hj; subst. rewrite Nat.add_0_r in Hn', Hs'.
               rewrite Hn in Hn'. rewrite Hsi in Hs'. inversion Hn'; inversion Hs'; subst.
-              exists m. split; [exact M|lia].
+              exists m. split; [exact M|exact C].
            ++ cbn in Hj. apply (H j); [exact Hj| |]; rewrite Nat.add_succ_l, <- Nat.add_succ_r; assumption.
         -- intros H j ax' n' s' Hj Hn' Hs'. apply (H (S j)); [exact Hj| |];
              rewrite Nat.add_succ_r, <- Nat.add_succ_l; assumption.
+      * apply xltb_false_iff in C.
+        split; [right; exact I|]. cbn. split; [contradiction|]. intros H.
+        destruct (H 0%nat ax n s) as [m' [Hm' Hlt]]; [reflexivity|rewrite Nat.add_0_r; exact Hn|rewrite Nat.add_0_r; exact Hsi|].
+        rewrite M in Hm'. inversion Hm'; subst. contradiction.
     + split; [right; exact I|]. cbn. split; [contradiction|]. intros H.
       destruct (H 0%nat ax n s) as [m' [Hm' _]]; [reflexivity|rewrite Nat.add_0_r; exact Hn|rewrite Nat.add_0_r; exact Hsi|].
       rewrite M in Hm'. discriminate.
@@ -245,16 +334,16 @@ Qed.
 Lemma bounds_loop_msg l : forall shape sc i b errs j,
   bounds_loop l shape sc i = Ok (b, errs) -> In (MAxisOob j) errs ->
   (i <= j)%nat /\ exists ax n s m, nth_error l (j - i) = Some ax /\ nth_error shape j = Some n /\ nth_error sc j = Some s /\
-                                  ax_max ax = Some m /\ Z.of_nat n * s <= m.
+                                  ax_max ax = Some m /\ ~ xlt m (extent n s).
 Proof.
   induction l as [|ax r IH]; intros shape sc i b errs j Heq Hin; cbn [bounds_loop] in Heq.
   - inversion Heq; subst. destruct Hin.
   - destruct (ax_max ax) as [m|] eqn:M.
     + destruct (nth_error shape i) as [n|] eqn:N; [|discriminate].
       destruct (nth_error sc i) as [s|] eqn:S'; [|discriminate].
-      destruct (Z.of_nat n * s <=? m) eqn:C.
-      * inversion Heq; subst. destruct Hin as [Hj|[]]. inversion Hj; subst j.
-        split; [lia|]. exists ax, n, s, m. rewrite Nat.sub_diag. cbn. repeat split; try assumption. lia.
+      destruct (xltb m (extent n s)) eqn:C; cbn [negb] in Heq.
+      2: { apply xltb_false_iff in C. inversion Heq; subst. destruct Hin as [Hj|[]]. inversion Hj; subst j.
+           split; [lia|]. exists ax, n, s, m. rewrite Nat.sub_diag. cbn. repeat split; try assumption. }
       * destruct (IH _ _ _ _ _ _ Heq Hin) as [Hle [ax' [n' [s' [m' [H1 H2]]]]]].
         split; [lia|]. exists ax', n', s', m'. split; [|exact H2].
         replace (j - i)%nat with (S (j - S i)) by lia. exact H1.
@@ -265,7 +354,7 @@ Lemma bounds_message axes shape scale b errs j :
   graph_is_in_seg_bounds axes shape scale = Ok (b, errs) -> In (MAxisOob j) errs ->
   exists l ax n s m, axes = Some l /\ nth_error l j = Some ax /\ nth_error shape j = Some n /\
                      nth_error (scale_or_ones scale (List.length shape)) j = Some s /\
-                     ax_max ax = Some m /\ Z.of_nat n * s <= m.
+                     ax_max ax = Some m /\ ~ xlt m (extent n s).
 Proof.
   unfold graph_is_in_seg_bounds. cbv zeta.
   set (sc := scale_or_ones scale (List.length shape)).
@@ -579,39 +668,64 @@ Proof.
   pose proof (Z.div_pos p M Hp HM). split; [nia|lia].
 Qed.
 
-Definition scaled_of (coord sc : list Z) : list Z := map (fun p => fst p * snd p) (combine coord sc).
+Definition scaled_of (coord sc : list xnum) : list xnum := map (fun p => xmul (fst p) (snd p)) (combine coord sc).
 
-(* integer indexing with the truncated products, after the sign test *)
+(* a coordinate has a pixel only if all its components and all scale factors are finite *)
+Lemma pixel_of_finite shape sc coord idx :
+  pixel_of shape sc coord idx -> Forall is_fin coord /\ Forall is_fin sc.
+Proof.
+  induction 1 as [|n shape s sc c coord i idx _ _ _ [IH1 IH2]]; [split; constructor|].
+  split; constructor; try assumption; eexists; reflexivity.
+Qed.
+
+(* the sign test (`not c >= 0`), int() of every component, then integer indexing *)
 Lemma index_of_scaled shape : forall sc coord,
   List.length coord = List.length shape -> List.length sc = List.length shape ->
-  if existsb (fun c => c <? 0) (scaled_of coord sc)
+  if existsb (fun c => negb (xleb (XFin 0) c)) (scaled_of coord sc)
   then ~ exists idx, pixel_of shape sc coord idx
-  else match norm_index shape (map trunc (scaled_of coord sc)) with
-       | Ok idx => pixel_of shape sc coord idx
+  else match mapM xint (scaled_of coord sc) with
        | Err e => e = IndexError /\ ~ exists idx, pixel_of shape sc coord idx
+       | Ok ints =>
+           match norm_index shape ints with
+           | Ok idx => pixel_of shape sc coord idx
+           | Err e => e = IndexError /\ ~ exists idx, pixel_of shape sc coord idx
+           end
        end.
 Proof.
   induction shape as [|n shape IH]; intros [|s sc] [|c coord] Hc Hs; cbn in Hc, Hs; try discriminate.
   - cbn. constructor.
   - specialize (IH sc coord ltac:(lia) ltac:(lia)).
-    unfold scaled_of in *. cbn [combine map existsb fst snd].
-    destruct (c * s <? 0) eqn:Neg; cbn [orb].
-    + intros [idx H]. inversion H as [|? ? ? ? ? ? i idx' Hi Hf Hp]; subst.
-      pose proof UU_pos. assert (0 <= i * (U * U)) by (apply Z.mul_nonneg_nonneg; lia). lia.
-    + assert (0 <= c * s) as Hnn by lia.
-      destruct (trunc_floor (c * s) Hnn) as [Hfl Hq].
-      destruct (existsb (fun c0 => c0 <? 0) (map (fun p => fst p * snd p) (combine coord sc))) eqn:Ex.
-      * intros [idx H]. inversion H as [|? ? ? ? ? ? i idx' Hi Hf Hp]; subst. apply IH. exists idx'. exact Hp.
-      * cbn [norm_index]. unfold norm_axis_index.
-        replace (trunc (c * s) <? - Z.of_nat n) with false by lia. cbn [orb].
-        destruct (Z.of_nat n <=? trunc (c * s)) eqn:Big.
-        -- split; [reflexivity|]. intros [idx H]. inversion H as [|? ? ? ? ? ? i idx' Hi Hf Hp]; subst.
-           assert (i = trunc (c * s)) by (eapply floor_unique; [exact Hf|exact Hfl]). lia.
-        -- replace (trunc (c * s) <? 0) with false by lia.
-           destruct (norm_index shape (map trunc (map (fun p => fst p * snd p) (combine coord sc)))) as [idx'|e].
-           ++ constructor; [lia|exact Hfl|exact IH].
+    unfold scaled_of in *. cbn [combine map existsb fst snd mapM].
+    destruct (xmul c s) as [p| | |] eqn:P.
+    + apply xmul_fin_inv in P. destruct P as [c' [s' [-> [-> ->]]]].
+      change (xleb (XFin 0) (XFin (c' * s'))) with (0 <=? c' * s').
+      change (xint (XFin (c' * s'))) with (@Ok Z (trunc (c' * s'))).
+      destruct (0 <=? c' * s') eqn:Neg; cbn [negb orb].
+      * assert (0 <= c' * s') as Hnn by lia.
+        destruct (trunc_floor (c' * s') Hnn) as [Hfl Hq].
+        destruct (existsb (fun c0 => negb (xleb (XFin 0) c0)) (map (fun p => xmul (fst p) (snd p)) (combine coord sc))) eqn:Ex.
+        -- intros [idx H]. inversion H as [|? ? ? ? ? ? i idx' Hi Hf Hp]; subst. apply IH. exists idx'. exact Hp.
+        -- destruct (mapM xint (map (fun p => xmul (fst p) (snd p)) (combine coord sc))) as [ints|e].
+           ++ cbn [norm_index]. unfold norm_axis_index.
+              replace (trunc (c' * s') <? - Z.of_nat n) with false by lia. cbn [orb].
+              destruct (Z.of_nat n <=? trunc (c' * s')) eqn:Big.
+              ** split; [reflexivity|]. intros [idx H]. inversion H as [|? ? ? ? ? ? i idx' Hi Hf Hp]; subst.
+                 assert (i = trunc (c' * s')) by (eapply floor_unique; [exact Hf|exact Hfl]). lia.
+              ** replace (trunc (c' * s') <? 0) with false by lia.
+                 destruct (norm_index shape ints) as [idx'|e].
+                 --- constructor; [lia|exact Hfl|exact IH].
+                 --- destruct IH as [-> IH]. split; [reflexivity|]. intros [idx H].
+                     inversion H as [|? ? ? ? ? ? i idx' Hi Hf Hp]; subst. apply IH. exists idx'. exact Hp.
            ++ destruct IH as [-> IH]. split; [reflexivity|]. intros [idx H].
               inversion H as [|? ? ? ? ? ? i idx' Hi Hf Hp]; subst. apply IH. exists idx'. exact Hp.
+      * intros [idx H]. inversion H as [|? ? ? ? ? ? i idx' Hi Hf Hp]; subst.
+        pose proof UU_pos. assert (0 <= i * (U * U)) by (apply Z.mul_nonneg_nonneg; lia). lia.
+    + change (xleb (XFin 0) XNaN) with false. cbn [negb orb]. intros [idx H]. inversion H; subst. cbn in P. discriminate.
+    + change (xleb (XFin 0) XPInf) with true. change (xint XPInf) with (@Err Z IndexError). cbn [negb orb].
+      destruct (existsb (fun c0 => negb (xleb (XFin 0) c0)) (map (fun p => xmul (fst p) (snd p)) (combine coord sc))).
+      * intros [idx H]. inversion H; subst. cbn in P. discriminate.
+      * split; [reflexivity|]. intros [idx H]. inversion H; subst. cbn in P. discriminate.
+    + change (xleb (XFin 0) XNInf) with false. cbn [negb orb]. intros [idx H]. inversion H; subst. cbn in P. discriminate.
 Qed.
 
 Lemma coord_value_spec v sc coord :
@@ -624,11 +738,12 @@ Proof.
   unfold rank, coord_value, coord_in_range. intros Hc Hs.
   rewrite zip_strict_Ok by congruence.
   pose proof (index_of_scaled (v_shape v) sc coord Hc Hs) as H. unfold scaled_of in H.
-  destruct (existsb (fun c => c <? 0) (map (fun p => fst p * snd p) (combine coord sc))).
+  destruct (existsb (fun c => negb (xleb (XFin 0) c)) (map (fun p => xmul (fst p) (snd p)) (combine coord sc))).
   - split; [reflexivity|exact H].
-  - unfold np_getitem.
-    destruct (norm_index (v_shape v) (map trunc (map (fun p => fst p * snd p) (combine coord sc)))) as [idx|e].
-    + exists idx. split; [exact H|reflexivity].
+  - destruct (mapM xint (map (fun p => xmul (fst p) (snd p)) (combine coord sc))) as [ints|e].
+    + unfold np_getitem. destruct (norm_index (v_shape v) ints) as [idx|e].
+      * exists idx. split; [exact H|reflexivity].
+      * exact H.
     + exact H.
 Qed.
 
@@ -748,3 +863,89 @@ Qed.
 Lemma lookup_dict {A} key (l : list (string * A)) a :
   NoDup (map fst l) -> (lookup key l = Some a <-> In (key, a) l).
 Proof. intros H. split; [apply lookup_In|apply In_lookup; exact H]. Qed.
+
+(* ================================================================== *)
+(* non-finite numbers: corollaries                                    *)
+(* ================================================================== *)
+Lemma extent_fin n s : extent n (XFin s) = XFin (Z.of_nat n * s).
+Proof. reflexivity. Qed.
+Lemma extent_nan n : extent n XNaN = XNaN.
+Proof. reflexivity. Qed.
+(* size 0 times an infinite scale factor is NaN; a positive size keeps the infinity *)
+Lemma extent_inf n :
+  extent n XPInf = (if Nat.eqb n 0 then XNaN else XPInf) /\ extent n XNInf = (if Nat.eqb n 0 then XNaN else XNInf).
+Proof.
+  unfold extent. cbn. destruct n as [|n]; [split; reflexivity|].
+  replace (Z.of_nat (S n) =? 0) with false by lia. replace (0 <? Z.of_nat (S n)) with true by lia. split; reflexivity.
+Qed.
+
+(* for finite maximum and scale factor the reported axis has size * scale <= max, as before *)
+Lemma bounds_message_fin axes shape scale b errs j :
+  graph_is_in_seg_bounds axes shape scale = Ok (b, errs) -> In (MAxisOob j) errs ->
+  exists l ax n s m, axes = Some l /\ nth_error l j = Some ax /\ nth_error shape j = Some n /\
+                     nth_error (scale_or_ones scale (List.length shape)) j = Some s /\
+                     ax_max ax = Some m /\ ~ xlt m (extent n s) /\
+                     (forall m' s', m = XFin m' -> s = XFin s' -> Z.of_nat n * s' <= m').
+Proof.
+  intros H Hin. destruct (bounds_message _ _ _ _ _ _ H Hin) as [l [ax [n [s [m [H1 [H2 [H3 [H4 [H5 H6]]]]]]]]]].
+  exists l, ax, n, s, m. repeat split; try assumption.
+  intros m' s' -> ->. rewrite extent_fin, xlt_fin_iff in H6. lia.
+Qed.
+
+(* an accepted axis has neither a NaN / +inf maximum nor a NaN / -inf extent *)
+Lemma xlt_sides m e : xlt m e -> m <> XNaN /\ m <> XPInf /\ e <> XNaN /\ e <> XNInf.
+Proof. intros H. inversion H; repeat split; discriminate. Qed.
+
+Lemma bounds_nonfinite_rejects axes shape scale :
+  (exists l i ax n s, axes = Some l /\ nth_error l i = Some ax /\ nth_error shape i = Some n /\
+                      nth_error (scale_or_ones scale (List.length shape)) i = Some s /\
+                      (ax_max ax = Some XNaN \/ ax_max ax = Some XPInf \/ extent n s = XNaN \/ extent n s = XNInf)) ->
+  rejects_with_message (graph_is_in_seg_bounds axes shape scale).
+Proof.
+  intros [l [i [ax [n [s [Hl [Hi [Hn [Hs Hbad]]]]]]]]].
+  destruct (bounds_total axes shape scale) as [Hacc|Hrej]; [|exact Hrej]. exfalso.
+  apply bounds_iff in Hacc. destruct Hacc as [l' [Hl' [_ [_ [_ Hall]]]]]. rewrite Hl in Hl'. inversion Hl'; subst l'.
+  destruct (Hall i ax n s Hi Hn Hs) as [m [Hm Hlt]]. apply xlt_sides in Hlt. destruct Hlt as [A [B [C D]]].
+  destruct Hbad as [E|[E|[E|E]]]; try (rewrite Hm in E; inversion E; subst; contradiction); contradiction.
+Qed.
+
+(* a coordinate with a NaN / infinite component, or any coordinate under a scale vector with a NaN /
+   infinite factor, has no pixel: False with a message *)
+Lemma coords_nonfinite v coords ids scale :
+  (exists coord x, In coord coords /\ In x coord /\ ~ is_fin x) \/
+  (coords <> [] /\ exists s, In s (scale_or_ones scale (rank v)) /\ ~ is_fin s) ->
+  rejects_with_message (has_seg_ids_at_coords v coords ids scale).
+Proof.
+  intros H. apply coords_out_of_range. destruct H as [[coord [x [Hc [Hx Hnf]]]]|[Hne [s [Hs Hnf]]]].
+  - exists coord. split; [exact Hc|]. intros [idx Hp]. apply pixel_of_finite in Hp. destruct Hp as [Hp _].
+    rewrite Forall_forall in Hp. apply Hnf, Hp, Hx.
+  - destruct coords as [|coord r]; [contradiction|]. exists coord. split; [left; reflexivity|].
+    intros [idx Hp]. apply pixel_of_finite in Hp. destruct Hp as [_ Hp].
+    rewrite Forall_forall in Hp. apply Hnf, Hp, Hs.
+Qed.
+
+(* pixel_of without the induction: same lengths, and on every axis finite coordinate and scale factor,
+   an index inside the axis, and index = floor of the product *)
+Definition pixel_pointwise (shape : list nat) (sc coord : list xnum) (idx : list Z) : Prop :=
+  List.length sc = List.length shape /\ List.length coord = List.length shape /\ List.length idx = List.length shape /\
+  forall k n s c i, nth_error shape k = Some n -> nth_error sc k = Some s -> nth_error coord k = Some c ->
+                    nth_error idx k = Some i ->
+                    exists c' s', c = XFin c' /\ s = XFin s' /\ 0 <= i < Z.of_nat n /\
+                                  i * (U * U) <= c' * s' < (i + 1) * (U * U).
+
+Lemma pixel_of_pointwise shape : forall sc coord idx, pixel_of shape sc coord idx <-> pixel_pointwise shape sc coord idx.
+Proof.
+  unfold pixel_pointwise. induction shape as [|n shape IH]; intros sc coord idx; split.
+  - intros H. inversion H; subst. repeat split; try reflexivity. intros k ? ? ? ? Hk. destruct k; discriminate.
+  - intros [H1 [H2 [H3 _]]]. destruct sc, coord, idx; try discriminate. constructor.
+  - intros H. inversion H as [|? ? s sc' c coord' i idx' Hi Hf Hp]; subst. apply IH in Hp.
+    destruct Hp as [L1 [L2 [L3 Hall]]]. cbn [List.length]. repeat split; try congruence.
+    intros k n0 s0 c0 i0 Hn Hs Hc Hi0. destruct k as [|k]; cbn in Hn, Hs, Hc, Hi0.
+    + inversion Hn; inversion Hs; inversion Hc; inversion Hi0; subst. exists c, s. repeat split; try reflexivity; lia.
+    + apply (Hall k); assumption.
+  - intros [H1 [H2 [H3 Hall]]]. destruct sc as [|s sc], coord as [|c coord], idx as [|i idx]; try discriminate.
+    cbn [List.length] in H1, H2, H3.
+    destruct (Hall 0%nat n s c i eq_refl eq_refl eq_refl eq_refl) as [c' [s' [-> [-> [Hi Hf]]]]].
+    constructor; [exact Hi|exact Hf|]. apply IH. repeat split; try lia.
+    intros k n0 s0 c0 i0 Hn Hs Hc Hi0. apply (Hall (S k)); assumption.
+Qed.
